@@ -188,3 +188,31 @@ def run_many(jobs, parallel=6):
     with ThreadPoolExecutor(max_workers=parallel) as ex:
         futs = [ex.submit(lambda kw=kw: run(**kw)) for kw in jobs]
         return [f.result() for f in futs]
+
+
+def apalache(spec, init, inv, length, timeout=300):
+    """apalache-mc check --init --inv --length on specs/**/<spec>.tla (staged copy). Returns "NoError" | "Error";
+    raises TLCError when Apalache cannot run, does not finish or reports anything else."""
+    if shutil.which("apalache-mc") is None:
+        raise TLCError("apalache-mc not on PATH")
+    os.makedirs(WORK, exist_ok=True)
+    workdir = tempfile.mkdtemp(prefix="apa-", dir=WORK)
+    try:
+        for d in spec_dirs():
+            for f in os.listdir(d):
+                if f.endswith(".tla"):
+                    shutil.copy(os.path.join(d, f), os.path.join(workdir, f))
+        t0 = time.time()
+        try:
+            pr = subprocess.run(["apalache-mc", "check", f"--init={init}", f"--inv={inv}", f"--length={length}",
+                                 f"--out-dir={workdir}/out", f"--run-dir={workdir}/run", spec + ".tla"], cwd=workdir,
+                                capture_output=True, text=True,
+                                timeout=timeout * float(os.environ.get("VERIF_TIMEOUT_FACTOR", "4")))
+        except subprocess.TimeoutExpired:
+            raise TLCError(f"apalache {spec} {inv}: no answer within the time limit")
+        m = re.search(r"The outcome is: (\w+)", pr.stdout)
+        if not m or m.group(1) not in ("NoError", "Error"):
+            raise TLCError(f"apalache {spec} {inv}: {pr.stdout[-1500:]} {pr.stderr[-500:]}")
+        return dict(outcome=m.group(1), wall_s=round(time.time() - t0, 1))
+    finally:
+        shutil.rmtree(workdir, ignore_errors=True)
